@@ -18,7 +18,7 @@ RULE = (
     "batch whose other rows are different cases, a prefix is also decoded 1-D. ML clause: all 2^n words for small n, seeded words above; distance to the decoded codeword "
     "must equal the reference minimum. Distinct = (code, decoder, received word); non-trivial = error weight>=1 or non-codeword."
     " Added after the seeded-fault rounds: units of one decoder kind and code shape run in one child process; batch sizes cycle through 1..601 plus one 640-row batch per pairing; on-demand brute-force decoder (precompute_codebook=False); Berlekamp-Massey paired with 'left'/'right' information sets only (as the property states)."
-    " Round 5: form axis of the catalogue (deep copy, .double(), .double().float(), state_dict twin) for every decoder pairing of the representatives."
+    " Round 5: sampled error patterns are weighted towards the capability edge (weight t-1 and t get four times the share); form axis of the catalogue (deep copy, .double(), .double().float(), state_dict twin) for every decoder pairing of the representatives."
 )
 ASSUMPTIONS = [
     "t = floor((d_adv-1)/2) with d_adv the advertised distance (minimum_distance / delta / error_correction_capability / documented family value); generic codes without advertisement use the reference's true d",
@@ -155,7 +155,10 @@ def _patterns(rng, n, t, budget):
         rng.shuffle(pairs)
         pats += pairs[: max(10, budget // 3)]
     for w in range(3, t + 1):
-        for _ in range(max(10, budget // (3 * max(1, t - 2)))):
+        # the patterns at the edge of the capability (weight t-1 and t) are where a bounded-distance decoder has no slack:
+        # they get four times the share of the lighter ones
+        share = max(10, budget // (3 * max(1, t - 2))) * (4 if w >= max(3, t - 1) and t >= 4 else 1)
+        for _ in range(min(share, comb(n, w))):
             pats.append(sum(1 << p for p in rng.sample(range(n), w)))
     return pats, False
 
